@@ -21,6 +21,8 @@ type uptr struct {
 	off   value   // byte offset: int64 or sym (BV64); nil means 0
 	typ   *rtype  // set when the pointer stands for a runtime type descriptor
 	raw   uint64  // plain integer value when no object is attached
+	str   string  // unsafe.StringData
+	isStr bool
 }
 
 func (p uptr) isNil() bool {
@@ -109,6 +111,11 @@ func (i *interpreter) uptrBinop(op token.Token, x, y value) value {
 			r := px
 			r.off = i.offArith(token.SUB, px.offVal(), y)
 			return r
+		case token.XOR, token.OR:
+			// noescape idiom: uintptr(p) ^ 0
+			if !isSym(y) && asUint64Any(y) == 0 {
+				return px
+			}
 		case token.EQL, token.NEQ:
 			// comparison with an integer (nil check via uintptr(0))
 			if !isSym(y) && asUint64Any(y) == 0 {
